@@ -468,7 +468,14 @@ func (c *Ctx) FetchHelperRules(prop string, s *Slashing, kind string) *ssa.Globa
 	c.R.Floor(rule, "fetch helpers ("+kind+")", len(fhs), 1)
 	var action *ssa.Global
 	for _, fn := range fhs {
-		if fs := c.fetchSiteOf(s, fn); fs != nil && fs.Inner != nil {
+		var adapter *ssa.Call // call of a raw fetch adapter G(ctx, pubKey, action) (data, found, err) in fn
+		var adFound ssa.Value
+		if fs := c.fetchSiteOf(s, fn); fs != nil && fs.Inner != nil && fs.Inner.Signature.Results().Len() == 3 {
+			if ac, ok := fs.Call.(*ssa.Call); ok {
+				adapter = ac
+			}
+		}
+		if fs := c.fetchSiteOf(s, fn); adapter == nil && fs != nil && fs.Inner != nil {
 			if g := c.fetchHelperTwoLevel(prop, s, kind, state, fn, fs); g != nil {
 				if action != nil && action != g {
 					c.R.Fail(ruleKey, Fn(fn)+":action", c.Pos(fs.Call), "fetch helpers of one kind use different action values", "one action per record kind", nil)
@@ -478,13 +485,28 @@ func (c *Ctx) FetchHelperRules(prop string, s *Slashing, kind string) *ssa.Globa
 			continue
 		}
 		fetchCalls := Calls(fn, func(ci ssa.CallInstruction) bool { return ci.Common().StaticCallee() == s.StoreFetch })
+		if adapter != nil {
+			fetchCalls = []ssa.CallInstruction{adapter}
+		}
 		if len(fetchCalls) != 1 {
 			c.R.Unknown(rule, Fn(fn), c.P.FuncPos(fn), "fetch helper calls the store's Fetch more than once")
 			continue
 		}
 		fc := fetchCalls[0]
 		// key
-		pk, g, why := keyBuild(fn, fc.Common().Args[2])
+		var pk ssa.Value
+		var g *ssa.Global
+		var why string
+		adNotFound := ""
+		if adapter != nil {
+			var okA bool
+			pk, g, adNotFound, okA = c.fetchAdapter(rule, s, adapter)
+			if !okA {
+				continue
+			}
+		} else {
+			pk, g, why = keyBuild(fn, fc.Common().Args[2])
+		}
 		if why != "" {
 			c.R.Fail(ruleKey, Fn(fn), c.Pos(fc), "database key: "+why, "key = pubKey || action", nil)
 		} else if p, ok := pk.(*ssa.Parameter); !ok || p.Parent() != fn {
@@ -500,14 +522,17 @@ func (c *Ctx) FetchHelperRules(prop string, s *Slashing, kind string) *ssa.Globa
 		var fetchErr, fetchData ssa.Value
 		for _, r := range *fc.Value().Referrers() {
 			if ex, ok := r.(*ssa.Extract); ok {
-				if ex.Index == 1 {
+				switch {
+				case adapter != nil && ex.Index == 2, adapter == nil && ex.Index == 1:
 					fetchErr = ex
-				} else {
+				case adapter != nil && ex.Index == 1:
+					adFound = ex
+				case ex.Index == 0:
 					fetchData = ex
 				}
 			}
 		}
-		if fetchErr == nil {
+		if fetchErr == nil || (adapter != nil && adFound == nil) {
 			c.R.Fail(rule, Fn(fn), c.Pos(fc), "the error result of Fetch is discarded", "fetch error is examined", nil)
 			continue
 		}
@@ -545,8 +570,12 @@ func (c *Ctx) FetchHelperRules(prop string, s *Slashing, kind string) *ssa.Globa
 			c.R.Fail(rule, Fn(fn)+":decode", c.Pos(dc), "the record is decoded although Fetch failed", "Decode only below [fetch err == nil]", an.PathString(c.Pos, path))
 		}
 		// "not found" atom: fetchErr.Error() == <const string>
-		notFoundStr := ""
+		notFoundStr := adNotFound
 		isNotFound := func(a *an.Atom) bool {
+			// adapter form: the adapter reported found == false (judged together with [adapter err == nil], below)
+			if adapter != nil && a != nil && a.Op == "false" && a.LV == adFound {
+				return true
+			}
 			if a == nil || a.Op != "==" {
 				return false
 			}
@@ -578,6 +607,21 @@ func (c *Ctx) FetchHelperRules(prop string, s *Slashing, kind string) *ssa.Globa
 			}
 			return unwrapErr(call.Call.Args[0]) == fetchErr
 		}
+		// adapter form: found and data mean something only when the adapter's error is nil
+		needsErrNil := func(target ssa.Instruction) bool {
+			if adapter == nil {
+				return true
+			}
+			x, _ := an.Cut(an.CutQuery{From: an.Entry(fn), Target: func(i ssa.Instruction) bool { return i == target },
+				AcceptEdge: func(b *ssa.BasicBlock, i int, a *an.Atom) bool { return errNilAtom(a, ferrs) }})
+			return x == nil
+		}
+		if adapter != nil {
+			if x, path := an.Cut(an.CutQuery{From: an.Entry(fn), Target: func(i ssa.Instruction) bool { return i == dc.(ssa.Instruction) },
+				AcceptEdge: func(b *ssa.BasicBlock, i int, a *an.Atom) bool { return a != nil && a.Op == "true" && a.LV == adFound }}); x != nil {
+				c.R.Fail(rule, Fn(fn)+":decode", c.Pos(dc), "the record is decoded although the fetch adapter did not report a record", "Decode only below [found]", an.PathString(c.Pos, path))
+			}
+		}
 		// nil-error returns are cut by {decode err == nil} or {not found}
 		nbad := 0
 		for _, ret := range an.Returns(fn) {
@@ -587,6 +631,11 @@ func (c *Ctx) FetchHelperRules(prop string, s *Slashing, kind string) *ssa.Globa
 				continue
 			}
 			target := ssa.Instruction(ret)
+			if !needsErrNil(target) {
+				nbad++
+				c.R.Fail(rule, Fn(fn), c.Pos(ret), "the helper can report success although the fetch adapter returned an error", "nil error only past [adapter err == nil]", nil)
+				continue
+			}
 			if x, path := an.Cut(an.CutQuery{From: an.Entry(fn), Target: func(i ssa.Instruction) bool { return i == target },
 				AcceptEdge: func(b *ssa.BasicBlock, i int, a *an.Atom) bool {
 					return errNilAtom(a, decodeErrs) || isNotFound(a) || isNotFoundIs(a)
@@ -611,6 +660,10 @@ func (c *Ctx) FetchHelperRules(prop string, s *Slashing, kind string) *ssa.Globa
 				continue
 			}
 			target := ssa.Instruction(fs.Store)
+			if !needsErrNil(target) {
+				c.R.Fail(rule4, Fn(fn)+":"+fs.Field, c.Pos(fs.Store), "the none marker is written although the fetch adapter returned an error (any failure would then read as nothing signed)", "-1 only past [adapter err == nil] and [not found]", nil)
+				continue
+			}
 			if x, path := an.Cut(an.CutQuery{From: an.Entry(fn), Target: func(i ssa.Instruction) bool { return i == target },
 				AcceptEdge: func(b *ssa.BasicBlock, i int, a *an.Atom) bool { return isNotFound(a) || isNotFoundIs(a) }}); x != nil {
 				c.R.Fail(rule4, Fn(fn)+":"+fs.Field, c.Pos(fs.Store), "the 'none' marker is written on a path other than 'record not found' (any other failure would then read as 'nothing signed')", "-1 only below the not-found edge", an.PathString(c.Pos, path))
@@ -644,6 +697,121 @@ func (c *Ctx) FetchHelperRules(prop string, s *Slashing, kind string) *ssa.Globa
 		}
 	}
 	return action
+}
+
+// fetchAdapter validates a raw fetch adapter G(ctx, pubKey, action) (data []byte, found bool, err error) called at `call`:
+// G fetches under pubKey || action; it returns (the fetched data, true, nil) only below [fetch err == nil], (_, false, nil)
+// only below the not-found test of the fetch error, and every other return carries an error that is known non-nil there.
+// It returns the key prefix and action in the caller's frame and the not-found text G compares with.
+func (c *Ctx) fetchAdapter(rule string, s *Slashing, call *ssa.Call) (pk ssa.Value, g *ssa.Global, notFound string, ok bool) {
+	G := call.Call.StaticCallee()
+	res := G.Signature.Results()
+	if res.Len() != 3 || !isErrorType(res.At(2).Type()) {
+		c.R.Unknown(rule, Fn(G), c.P.FuncPos(G), "the fetch adapter does not return (data, found, error)")
+		return nil, nil, "", false
+	}
+	fcs := Calls(G, func(ci ssa.CallInstruction) bool { return ci.Common().StaticCallee() == s.StoreFetch })
+	if len(fcs) != 1 {
+		c.R.Unknown(rule, Fn(G), c.P.FuncPos(G), "the fetch adapter does not call the store's Fetch exactly once")
+		return nil, nil, "", false
+	}
+	fc := fcs[0]
+	pre, suf, why := keyBuildVal(G, fc.Common().Args[2], 0)
+	if why != "" {
+		c.R.Fail(rule, Fn(G), c.Pos(fc), "database key: "+why, "key = pubKey || action", nil)
+		return nil, nil, "", false
+	}
+	argOf := func(v ssa.Value) ssa.Value {
+		for k, q := range G.Params {
+			if ssa.Value(q) == v && k < len(call.Call.Args) {
+				return call.Call.Args[k]
+			}
+		}
+		return nil
+	}
+	pk = argOf(pre)
+	act := argOf(suf)
+	if pk == nil || act == nil || globalOfLoad(act) == nil {
+		c.R.Fail(rule, Fn(G), c.Pos(fc), "the fetch adapter's key is not built from its public-key and action parameters, or the action given is not a package-level action value", "key = pubKey || action", nil)
+		return nil, nil, "", false
+	}
+	g = globalOfLoad(act)
+	var fetchErr, fetchData ssa.Value
+	for _, r := range *fc.Value().Referrers() {
+		if ex, isEx := r.(*ssa.Extract); isEx {
+			if ex.Index == 1 {
+				fetchErr = ex
+			} else {
+				fetchData = ex
+			}
+		}
+	}
+	if fetchErr == nil {
+		c.R.Fail(rule, Fn(G), c.Pos(fc), "the error result of Fetch is discarded", "fetch error is examined", nil)
+		return nil, nil, "", false
+	}
+	ferrs := map[ssa.Value]bool{fetchErr: true}
+	isNotFound := func(a *an.Atom) bool {
+		if a == nil {
+			return false
+		}
+		if a.Op == "==" {
+			for _, side := range [][2]ssa.Value{{a.LV, a.RV}, {a.RV, a.LV}} {
+				ec, isCall := side[0].(*ssa.Call)
+				if !isCall || !ec.Call.IsInvoke() || ec.Call.Method.Name() != "Error" || ec.Call.Value != fetchErr {
+					continue
+				}
+				if k, isK := side[1].(*ssa.Const); isK && k.Value != nil && k.Value.Kind() == constant.String {
+					notFound = constant.StringVal(k.Value)
+					return true
+				}
+			}
+		}
+		if a.Op == "true" {
+			if ec, isCall := a.LV.(*ssa.Call); isCall {
+				if f := ec.Call.StaticCallee(); f != nil && (f.String() == "errors.Is" || f.String() == "github.com/pkg/errors.Is") {
+					return unwrapErr(ec.Call.Args[0]) == fetchErr
+				}
+			}
+		}
+		return false
+	}
+	good := true
+	for _, ret := range an.Returns(G) {
+		target := ssa.Instruction(ret)
+		ev := an.Result(ret, 2)
+		if isNilConst(unwrapErr(ev)) {
+			fk, isK := an.Result(ret, 1).(*ssa.Const)
+			if !isK {
+				good = false
+				c.R.Unknown(rule, Fn(G), c.Pos(ret), "the fetch adapter returns a computed 'found' value")
+				continue
+			}
+			accept := isNotFound
+			if an.Term(fk) == "true" {
+				accept = func(a *an.Atom) bool { return errNilAtom(a, ferrs) }
+				if an.Result(ret, 0) != fetchData {
+					good = false
+					c.R.Fail(rule, Fn(G), c.Pos(ret), "the data the fetch adapter hands back as found is not the data returned by Fetch", "return data from Fetch, true, nil", nil)
+					continue
+				}
+			}
+			if x, path := an.Cut(an.CutQuery{From: an.Entry(G), Target: func(i ssa.Instruction) bool { return i == target },
+				AcceptEdge: func(b *ssa.BasicBlock, i int, a *an.Atom) bool { return accept(a) }}); x != nil {
+				good = false
+				c.R.Fail(rule, Fn(G), c.Pos(ret), "the fetch adapter can report (found="+an.Term(fk)+", no error) without a fetched record / without a definite 'not found'", "(data, true, nil) only below [fetch err == nil]; (nil, false, nil) only below [fetch err is 'not found']", an.PathString(c.Pos, path))
+			}
+			continue
+		}
+		if !errorSurelyNonNil(ev, ret, G) {
+			good = false
+			c.R.Fail(rule, Fn(G), c.Pos(ret), "the fetch adapter returns an error value that may be nil on a failure path (the caller would read 'no error, not found' = 'nothing signed yet')", "failure returns carry a non-nil error", nil)
+		}
+	}
+	if good {
+		c.R.OK(rule, Fn(G), c.P.FuncPos(G), "fetch adapter: (data, true, nil) only below [fetch err == nil]; (nil, false, nil) only below the not-found test; other returns carry a non-nil error")
+	}
+	return pk, g, notFound, good
 }
 
 // fetchHelperTwoLevel: the obligations of FetchHelperRules for a helper H that owns the state object and delegates
